@@ -27,7 +27,9 @@ EXTENDS ScannerApi, Json, IOUtils
   BackOnly     TRUE: set_offset only to offsets already scanned (C09)
   SecondInputs indices of inputs a later find_iter may use besides the first input
   SampleMod, SampleSeed   keep (cfg, input) pairs with (31*cfg + 17*input + seed) % mod = 0
-  AllPos       TRUE: every iterator call is followed by position(o) for all scanned offsets *)
+  AllPos       TRUE: every iterator call is followed by position(o) for all scanned offsets
+  Twin         TRUE: two scanners built from the same configuration through the cache (C12:
+               "scanners sharing one cached compilation"); later iterators come from either *)
 VARIABLES hist, done
 
 vars == <<scanners, iters, cache, hist, done>>
@@ -37,16 +39,20 @@ ASSUME /\ CfgLo >= 1 /\ CfgHi <= Len(Cfgs)
             JsonSerialize(IOEnv.VERIF_TABLES, [cfgs |-> [c \in CfgLo..CfgHi |-> Cfgs[c]], lo |-> CfgLo, syms |-> Syms])
 
 Boundaries(k) == { Off(k, i) : i \in 1..(LenW(k) + 1) }
-StartSet(k) == IF StartOffs = "zero" THEN {0} ELSE Boundaries(k) \cup {ByteLen(k) + 2}
+\* 1000000..1000002: the harness concretises an offset >= 1000000 as usize::MAX (clamped like any
+\* offset beyond the input; three values so that every public path of the harness' rotation is taken)
+Huge == {1000000, 1000001, 1000002}
+StartSet(k) == IF StartOffs = "zero" THEN {0} ELSE Boundaries(k) \cup {ByteLen(k) + 2, 1000000}
 
 \* the initial states only choose the configuration; the first step chooses input and start
 \* offset (so that TLC's workers share the enumeration)
 GInit ==
   \E ci \in CfgLo..CfgHi :
-    /\ scanners = << [cfg |-> ci, mode |-> 0] >>
-    /\ cache = {}
+    /\ scanners = IF Twin THEN << [cfg |-> ci, mode |-> 0], [cfg |-> ci, mode |-> 0] >> ELSE << [cfg |-> ci, mode |-> 0] >>
+    /\ cache = IF Twin THEN {ci} ELSE {}
     /\ iters = <<>>
-    /\ hist = << [op |-> "build", cfg |-> ci] >>
+    /\ hist = IF Twin THEN << [op |-> "build", cfg |-> ci, cached |-> TRUE], [op |-> "build", cfg |-> ci, cached |-> TRUE] >>
+                      ELSE << [op |-> "build", cfg |-> ci] >>
     /\ done = FALSE
 
 StepStart ==
@@ -76,7 +82,7 @@ StepNext(h) ==
     /\ DoNext(h, o.tok)
     /\ Log([op |-> "next", it |-> h, res |-> o.tok, mode |-> o.mode,
             nb |-> Cardinality(NextOutcomes(iters[h]))])
-    /\ done' = ((Len(hist) + 1 - 2 >= MaxDepth) \/ (Drain /\ o.tok = NoTok))
+    /\ done' = ((Len(hist) - Len(scanners) >= MaxDepth) \/ (Drain /\ o.tok = NoTok))
 
 StepNextPos(h) ==
   \E o \in NextOutcomes(iters[h]) :
@@ -87,7 +93,7 @@ StepNextPos(h) ==
             sp |-> IF chk THEN TruePos(k, o.tok[2]) ELSE <<>>,
             ep |-> IF chk THEN SetToSeq(PosAdm(k, o.tok[3])) ELSE <<>>,
             nb |-> Cardinality(NextOutcomes(iters[h]))])
-    /\ done' = ((Len(hist) + 1 - 2 >= MaxDepth) \/ (Drain /\ o.tok = NoTok))
+    /\ done' = ((Len(hist) - Len(scanners) >= MaxDepth) \/ (Drain /\ o.tok = NoTok))
 
 StepPeek(h) ==
   \E n \in PeekNs :
@@ -103,13 +109,13 @@ StepSetMode(h) ==
     DoSetMode(h, m) /\ Log([op |-> "setmode", it |-> h, m |-> m, mode |-> m])
 
 StepScSetMode ==
-  \E m \in 0..(NModes(scanners[1].cfg) - 1) :
-    DoScannerSetMode(1, m) /\ Log([op |-> "scsetmode", sc |-> 1, m |-> m])
+  \E s \in DOMAIN scanners : \E m \in 0..(NModes(scanners[s].cfg) - 1) :
+    DoScannerSetMode(s, m) /\ Log([op |-> "scsetmode", sc |-> s, m |-> m])
 
 StepSetOffset(h) ==
   LET k == iters[h].inp
       cand == IF BackOnly THEN { o \in Boundaries(k) : IdxOf(k, o) <= iters[h].hw }
-              ELSE Boundaries(k) \cup {ByteLen(k) + 3} IN
+              ELSE Boundaries(k) \cup {ByteLen(k) + 3} \cup Huge IN
   \E o \in cand :
     DoSetOffset(h, o) /\ Log([op |-> "setoffset", it |-> h, o |-> o, mode |-> iters[h].mode])
 
@@ -126,11 +132,11 @@ StepPosition(h) ==
 
 StepNewIter ==
   /\ Len(iters) < NIters
-  /\ \E k \in {iters[1].inp} \cup SecondInputs :
-       /\ NewIter(1, k, 0)
-       /\ Log([op |-> "newiter", sc |-> 1, w |-> W(k), off |-> 0])
+  /\ \E s \in DOMAIN scanners : \E k \in {iters[1].inp} \cup SecondInputs :
+       /\ NewIter(s, k, 0)
+       /\ Log([op |-> "newiter", sc |-> s, w |-> W(k), off |-> 0])
 
-NotNextDone == done' = (Len(hist) + 1 - 2 >= MaxDepth)
+NotNextDone == done' = (Len(hist) - Len(scanners) >= MaxDepth)
 
 GNext ==
   /\ ~done
